@@ -55,13 +55,19 @@ func TestTranslatorAgainstNativeGo(t *testing.T) {
 	if err != nil {
 		t.Fatal(err)
 	}
+	// [BitsCode] uint64 words, math/bits.OnesCountN, struct literals, named results: a third specification (struct Words)
+	body3, err := Translate(".", TransSpec{Dir: "internal/sample", Structs: []string{"Words"}, Funcs: []string{
+		"WordIdx", "Pop64", "WordsScript", "Locate", "NamedSum"}})
+	if err != nil {
+		t.Fatal(err)
+	}
 	// function-typed parameters / fields and in-out slice parameters (trans_func.go): a second specification, with InOut
 	body2, err := Translate(".", TransSpec{Dir: "internal/sample", Structs: []string{"Sorter"}, InOut: true, Funcs: []string{
 		"Exch", "NoExch", "ExchIf", "Bubble", "DryRun", "Pass", "FirstLast", "Sorter.Sort", "Sorter.Min"}})
 	if err != nil {
 		t.Fatal(err)
 	}
-	body += body2
+	body += body2 + body3
 	var ex []string
 	add := func(call string, f func() string) {
 		ex = append(ex, fmt.Sprintf("Example ex%d : %s = %s.\nProof. vm_compute. reflexivity. Qed.", len(ex), call, native(f)))
@@ -193,6 +199,38 @@ func TestTranslatorAgainstNativeGo(t *testing.T) {
 		}
 	}
 	ex = append(ex, "Example fuel4 : g_Bubble 3 [3; 2; 1] (fun a b => a <? b) g_Exch = NoFuel.\nProof. vm_compute. reflexivity. Qed.")
+	// [BitsCode] uint64 words: int(u >> c), math/bits.OnesCountN, struct literals
+	words := []uint64{0, 1, 63, 64, 65, 4095, 1 << 31, 1<<32 - 1, 1 << 32, 0x5555555555555555, 1 << 63, 1<<64 - 1, 1<<64 - 64}
+	for _, a := range words {
+		a := a
+		add(fmt.Sprintf("g_WordIdx %d", a), func() string {
+			p, q, r, h := sample.WordIdx(uint(a))
+			return fmt.Sprintf("(%d, %d, %d, %d)", p, q, r, h)
+		})
+		for _, b := range words {
+			b := b
+			add(fmt.Sprintf("g_Pop64 %d %d", a, uint32(b)), func() string { return zs(sample.Pop64(a, uint32(b))) })
+			for _, k := range []uint{0, 5, 63, 64, 127, 128, 300} {
+				k := k
+				add(fmt.Sprintf("g_WordsScript 200 %d %d %d", a, b, k), func() string {
+					n, l, last, wl := sample.WordsScript(a, b, k)
+					return fmt.Sprintf("(%d, %d, %d, %d)", n, l, last, wl)
+				})
+			}
+		}
+	}
+	// [BitsCode] named results
+	for _, a := range words {
+		a := a
+		add(fmt.Sprintf("g_Locate %d", a), func() string { i, m := sample.Locate(uint(a)); return fmt.Sprintf("(%d, %d)", i, m) })
+	}
+	for _, sl := range slices {
+		sl := sl
+		for _, lim := range []int{-5, 0, 3, 10, 100} {
+			lim := lim
+			add(fmt.Sprintf("g_NamedSum 200 %s %s", ls(sl), zs(lim)), func() string { t, c := sample.NamedSum(sl, lim); return "(" + zs(t) + ", " + bs(c) + ")" })
+		}
+	}
 	// out of fuel is its own value
 	ex = append(ex, "Example fuel1 : g_SumTo 5 10 = NoFuel.\nProof. vm_compute. reflexivity. Qed.")
 	ex = append(ex, "Example fuel2 : g_SumTo 11 10 = Ret 55.\nProof. vm_compute. reflexivity. Qed.")
@@ -224,8 +262,8 @@ func TestTranslatorAgainstNativeGo(t *testing.T) {
 
 // everything outside the subset must be refused with a position
 func TestTranslatorFailsClosed(t *testing.T) {
-	for _, fn := range []string{"Alias", "Closure", "Recursive", "Goroutine", "MapUse", "WriteParam", "Labelled", "PtrArith", "Defer", "Box.OrderDep"} {
-		_, err := Translate(".", TransSpec{Dir: "internal/refused", Structs: []string{"Box"}, Funcs: []string{fn}})
+	for _, fn := range []string{"Alias", "Closure", "Recursive", "Goroutine", "MapUse", "WriteParam", "Labelled", "PtrArith", "Defer", "Box.OrderDep", "LitAlias", "BigConv"} {
+		_, err := Translate(".", TransSpec{Dir: "internal/refused", Structs: []string{"Box", "Pack"}, Funcs: []string{fn}})
 		if err == nil || !strings.Contains(err.Error(), "unsupported") || !strings.Contains(err.Error(), "refused.go:") {
 			t.Errorf("%s: expected `unsupported: ... at file:line`, got %v", fn, err)
 		} else {
